@@ -578,6 +578,10 @@ def right(text, num_chars=1):
 def substitute(text, old_text, new_text, instance_num=None):
     # Excel reference: https://support.microsoft.com/en-us/office/
     #   substitute-function-6434944e-a904-4336-a9b0-1e58df3bc332
+    if not old_text:
+        # nothing to look for: excel leaves the text as it is
+        return text
+
     if instance_num is None:
         return text.replace(old_text, new_text)
 
